@@ -1,250 +1,30 @@
 /-
 C15 — Served entries reach the pipeline in the query's schema.
-Property theorems only (small helper lemmas are `private theorem`s).
+Property theorems only; the helper lemmas are in ForML/Lemmas/C15Match.lean (the `_match_entry` loops)
+and ForML/Lemmas/C15Matrix.lean (positional selection, transposition), small ones are `private` here.
+
+Reading guide (statement ↔ theorem):
+* "for every entry whose columns are any permutation or superset of the query schema the data entering
+  the pipeline has exactly the query's columns in the query's order, each value cast to the declared
+  kind"                        → `C15_served` (total: such an entry with cast-able values IS served, and
+                                  what is served is `Delivered`), `C15_cast`, `C15_match_*`
+* "an entry lacking a required column is refused rather than padded or misaligned"
+                               → `C15_refusal` (iff), `C15_match_refused_iff`
+* un-castable values           → `C15_cast_error_sound`, `C15_uncastable_refused` (refused, never delivered)
+* "row and column views and row/column selections agree with plain matrix semantics in both tabular
+  implementations"             → `C15_matrix_views`, `C15_matrix_shape`, `C15_take_rows`, `C15_take_columns`,
+                                  `C15_take_error`
+* label/feature slicing        → `C15_slicer`, `C15_slicer_positions`
+* the defect repaired in /repo 8698b70 (D16) → `C15_cast_legacy*` (characterisation, partial, counterexample)
+* the kind match relation is a parameter `km` (any reflexive relation); `C15_kind_table` re-proves reflexivity of the
+  relation extracted from the live classes, `C15_served_live` instantiates the headline theorem with it
 -/
 import ForML.Model.Entry
 import ForML.Generated.C15Kinds
+import ForML.Lemmas.C15Match
+import ForML.Lemmas.C15Matrix
 
 namespace ForML.Entry
-
-/-! ### helper: the last occurrence of a name -/
-
-/-- position (offset by `i`) of the last occurrence of `c` in `e` -/
-def lastIdx (c : Name) : List Name → Nat → Option Nat
-  | [], _ => none
-  | x :: r, i =>
-    match lastIdx c r (i + 1) with
-    | some k => some k
-    | none => if x = c then some i else none
-
-private theorem lastIdx_none (c : Name) (e : List Name) (i : Nat) : lastIdx c e i = none ↔ c ∉ e := by
-  induction e generalizing i with
-  | nil => simp [lastIdx]
-  | cons x r ih =>
-    simp only [lastIdx]
-    cases h : lastIdx c r (i + 1) with
-    | some k =>
-      have : ¬ c ∉ r := fun hn => by rw [(ih (i + 1)).mpr hn] at h; cases h
-      constructor
-      · intro h'; cases h'
-      · intro hn; exact absurd (fun hm => hn (List.mem_cons_of_mem _ hm)) this
-    | none =>
-      have hr := (ih (i + 1)).mp h
-      by_cases hx : x = c
-      · simp [hx]
-      · simp [hx, hr]; exact fun h' => hx h'.symm
-
-private theorem lastIdx_some (c : Name) (e : List Name) (i k : Nat) (h : lastIdx c e i = some k) :
-    i ≤ k ∧ e[k - i]? = some c ∧ ∀ j, k - i < j → e[j]? ≠ some c := by
-  induction e generalizing i with
-  | nil => simp [lastIdx] at h
-  | cons x r ih =>
-    simp only [lastIdx] at h
-    cases hr : lastIdx c r (i + 1) with
-    | some k' =>
-      rw [hr] at h; cases h
-      obtain ⟨h1, h2, h3⟩ := ih (i + 1) hr
-      refine ⟨by omega, ?_, ?_⟩
-      · have : k - i = (k - (i + 1)) + 1 := by omega
-        rw [this]; simpa using h2
-      · intro j hj
-        have : j = (j - 1) + 1 := by omega
-        rw [this]; simp only [List.getElem?_cons_succ]
-        exact h3 (j - 1) (by omega)
-    | none =>
-      rw [hr] at h
-      by_cases hx : x = c
-      · simp [hx] at h; subst h
-        have hnot := (lastIdx_none c r (i + 1)).mp hr
-        refine ⟨Nat.le_refl _, by simp [hx], ?_⟩
-        intro j hj
-        have : j = (j - 1) + 1 := by omega
-        rw [this]; simp only [List.getElem?_cons_succ]
-        intro hc
-        exact hnot (List.mem_of_getElem? hc)
-      · simp [hx] at h
-
-/-! ### helper: the scanning loop of `_match_entry` -/
-
-private theorem lookup_cons_none (d : Name) (i : Nat) (src : Source) :
-    List.lookup (some d) ((none, i) :: src) = List.lookup (some d) src := by simp [List.lookup]
-
-private theorem lookup_cons_some (d b : Name) (i : Nat) (src : Source) :
-    List.lookup (some d) ((some b, i) :: src) = if d = b then some i else List.lookup (some d) src := by
-  by_cases h : d = b
-  · simp [List.lookup, h]
-  · have : (d == b) = false := by simp [h]
-    simp [List.lookup, h, this]
-
-private theorem scan_some_nil (e : List Name) (i : Nat) (src : Source) (ident : Bool) (src' : Source)
-    (ident' : Bool)
-    (h : scan (e.map (fun b => ((none : Option Name), some b))) i src ident = some (src', ident')) :
-    (∀ c, src'.lookup (some c) =
-      match lastIdx c e i with | some k => some k | none => src.lookup (some c))
-    ∧ ident' = (ident && decide (([] : List Name) = e)) := by
-  induction e generalizing i src ident with
-  | nil => simp [scan] at h; obtain ⟨rfl, rfl⟩ := h; simp [lastIdx]
-  | cons b bs ih =>
-    simp only [List.map_cons, scan] at h
-    split at h
-    · rename_i hc; simp at hc
-    · obtain ⟨h1, h2⟩ := ih _ _ _ h
-      refine ⟨?_, by simp [h2]⟩
-      intro c; rw [h1 c]; simp only [lastIdx]
-      cases lastIdx c bs (i + 1) with
-      | some k => rfl
-      | none =>
-        by_cases hb : b = c
-        · subst hb; simp [List.lookup]
-        · have : (some c == some b) = false := by simp; exact fun h => hb h.symm
-          simp [hb, List.lookup, this]
-
-private theorem scan_none_nil (e : List Name) (i : Nat) (src : Source) (ident : Bool) :
-    scan (e.map (fun b => ((none : Option Name), some b))) i src ident ≠ none := by
-  induction e generalizing i src ident with
-  | nil => simp [scan]
-  | cons b bs ih =>
-    simp only [List.map_cons, scan]
-    split
-    · rename_i hc; simp at hc
-    · exact ih _ _ _
-
-private theorem scan_some (q e : List Name) (i : Nat) (src : Source) (ident : Bool) (src' : Source)
-    (ident' : Bool) (h : scan (zipLongest q e) i src ident = some (src', ident')) :
-    (∀ c, src'.lookup (some c) =
-      match lastIdx c e i with | some k => some k | none => src.lookup (some c))
-    ∧ ident' = (ident && decide (q = e)) := by
-  fun_induction zipLongest q e generalizing i src ident with
-  | case1 bs => exact scan_some_nil bs i src ident src' ident' h
-  | case2 a as ih =>
-    simp only [scan] at h
-    split at h
-    · cases h
-    · obtain ⟨h1, h2⟩ := ih _ _ _ h
-      refine ⟨?_, by simp [h2]⟩
-      intro c; rw [h1 c]; simp [lastIdx, List.lookup]
-  | case3 a as b bs ih =>
-    simp only [scan] at h
-    split at h
-    · rename_i hc; simp at hc
-    · obtain ⟨h1, h2⟩ := ih _ _ _ h
-      refine ⟨?_, ?_⟩
-      · intro c; rw [h1 c]; simp only [lastIdx]
-        cases lastIdx c bs (i + 1) with
-        | some k => rfl
-        | none =>
-          by_cases hb : b = c
-          · subst hb; simp [List.lookup]
-          · have : (some c == some b) = false := by simp; exact fun h => hb h.symm
-            simp [hb, List.lookup, this]
-      · rw [h2]
-        by_cases hab : a = b
-        · subst hab; simp
-        · have : ¬ b = a := fun h => hab h.symm
-          simp [hab, this]
-
-private theorem scan_none (q e : List Name) (i : Nat) (src : Source) (ident : Bool)
-    (h : scan (zipLongest q e) i src ident = none) :
-    ∃ d ∈ q, d ∉ e ∧ src.lookup (some d) = none := by
-  fun_induction zipLongest q e generalizing i src ident with
-  | case1 bs => exact absurd h (scan_none_nil bs i src ident)
-  | case2 a as ih =>
-    simp only [scan] at h
-    split at h
-    · rename_i hc
-      simp only [Option.isNone_none, Bool.true_and, lookup_cons_none, Option.isNone_iff_eq_none] at hc
-      exact ⟨a, by simp, by simp, hc⟩
-    · obtain ⟨d, hd, _, hl⟩ := ih _ _ _ h
-      rw [lookup_cons_none] at hl
-      exact ⟨d, by simp [hd], by simp, hl⟩
-  | case3 a as b bs ih =>
-    simp only [scan] at h
-    split at h
-    · rename_i hc; simp at hc
-    · obtain ⟨d, hd, hne, hl⟩ := ih _ _ _ h
-      rw [lookup_cons_some] at hl
-      split at hl
-      · cases hl
-      · rename_i hdb
-        exact ⟨d, by simp [hd], by simp [hdb, hne], hl⟩
-
-private theorem collect_some (src : Source) (e : List Name)
-    (hsrc : ∀ c, src.lookup (some c) = lastIdx c e 0) (q : List Name) (idx : List Nat)
-    (h : collect src q = some idx) :
-    idx.length = q.length ∧ ∀ (j k : Nat), idx[j]? = some k → ∃ c, q[j]? = some c ∧ lastIdx c e 0 = some k := by
-  induction q generalizing idx with
-  | nil => simp [collect] at h; subst h; simp
-  | cons c cs ih =>
-    simp only [collect] at h
-    split at h
-    · cases h
-    · rename_i i hi
-      cases hc : collect src cs with
-      | none => simp [hc] at h
-      | some r =>
-        simp [hc] at h; subst h
-        obtain ⟨h1, h2⟩ := ih r hc
-        refine ⟨by simp [h1], ?_⟩
-        intro j k hj
-        cases j with
-        | zero => simp at hj; subst hj; exact ⟨c, by simp, by rw [← hsrc c]; exact hi⟩
-        | succ j => simp at hj; simpa using h2 j k hj
-
-private theorem collect_none (src : Source) (q : List Name) (h : collect src q = none) :
-    ∃ c ∈ q, src.lookup (some c) = none := by
-  induction q with
-  | nil => simp [collect] at h
-  | cons c cs ih =>
-    simp only [collect] at h
-    split at h
-    · rename_i hn; exact ⟨c, by simp, hn⟩
-    · cases hc : collect src cs with
-      | none => obtain ⟨d, hd, hl⟩ := ih hc; exact ⟨d, by simp [hd], hl⟩
-      | some r => simp [hc] at h
-
-private theorem collect_isSome (src : Source) (q : List Name)
-    (h : ∀ c ∈ q, (src.lookup (some c)).isSome) : (collect src q).isSome := by
-  induction q with
-  | nil => simp [collect]
-  | cons c cs ih =>
-    simp only [collect]
-    have hc := h c (by simp)
-    cases hl : src.lookup (some c) with
-    | none => simp [hl] at hc
-    | some i =>
-      have := ih (fun d hd => h d (by simp [hd]))
-      cases hr : collect src cs with
-      | none => simp [hr] at this
-      | some r => simp
-
-/-- what `matchEntry` returns, in one place (used by the theorems below) -/
-private theorem matchEntry_cases (q e : List Name) :
-    (matchEntry q e = (false, none) ∧ ∃ c ∈ q, c ∉ e) ∨
-    (matchEntry q e = (true, none) ∧ q = e) ∨
-    (∃ idx, matchEntry q e = (true, some idx) ∧ q ≠ e ∧ idx.length = q.length ∧
-      ∀ (j k : Nat), idx[j]? = some k → ∃ c, q[j]? = some c ∧ lastIdx c e 0 = some k) := by
-  unfold matchEntry
-  cases hs : scan (zipLongest q e) 0 [] true with
-  | none =>
-    obtain ⟨d, hd, hne, _⟩ := scan_none q e 0 [] true hs
-    exact Or.inl ⟨rfl, d, hd, hne⟩
-  | some p =>
-    obtain ⟨src, ident⟩ := p
-    obtain ⟨h1, h2⟩ := scan_some q e 0 [] true src ident hs
-    have hsrc : ∀ c, src.lookup (some c) = lastIdx c e 0 := by
-      intro c; rw [h1 c]; cases lastIdx c e 0 <;> simp [List.lookup]
-    simp only [Bool.true_and] at h2
-    by_cases hqe : q = e
-    · simp [h2, hqe]
-    · simp only [h2, hqe, decide_false, Bool.false_eq_true, if_false]
-      cases hc : collect src q with
-      | none =>
-        obtain ⟨c, hc1, hc2⟩ := collect_none src q hc
-        rw [hsrc c] at hc2
-        exact Or.inl ⟨rfl, c, hc1, (lastIdx_none c e 0).mp hc2⟩
-      | some idx =>
-        obtain ⟨h3, h4⟩ := collect_some src e hsrc q idx hc
-        exact Or.inr (Or.inr ⟨idx, rfl, hqe, h3, h4⟩)
 
 /-! ### C15_match — `_match_entry` -/
 
@@ -317,185 +97,10 @@ theorem C15_duplicates (q e : List Name) (idx : List Nat) (h : matchEntry q e = 
     obtain ⟨_, h2, h3⟩ := lastIdx_some c e 0 k hl
     exact ⟨c, hc, by simpa using h2, fun k' hk' => h3 k' (by omega)⟩
 
-/-! ### helper lemmas: positional selection and transposition -/
-
-section matrix
-variable {α β : Type}
-
-private theorem mapOpt_some {f : α → Option β} (xs : List α) (ys : List β) (h : mapOpt f xs = some ys) :
-    ys.length = xs.length ∧ ∀ k : Nat, ys[k]? = xs[k]?.bind f := by
-  induction xs generalizing ys with
-  | nil => simp [mapOpt] at h; subst h; simp
-  | cons x r ih =>
-    simp only [mapOpt] at h
-    split at h
-    · rename_i b bs hb hbs
-      cases h
-      obtain ⟨h1, h2⟩ := ih bs hbs
-      refine ⟨by simp [h1], ?_⟩
-      intro k; cases k with
-      | zero => simp [hb]
-      | succ k => simpa using h2 k
-    · cases h
-
-private theorem mapOpt_none {f : α → Option β} (xs : List α) :
-    mapOpt f xs = none ↔ ∃ x ∈ xs, f x = none := by
-  induction xs with
-  | nil => simp [mapOpt]
-  | cons x r ih =>
-    simp only [mapOpt]
-    cases hx : f x with
-    | none => simp [hx]
-    | some b =>
-      cases hr : mapOpt f r with
-      | none => simp [hx]; exact ih.mp hr
-      | some bs =>
-        simp [hx]
-        intro y hy hn
-        have := ih.mpr ⟨y, hy, hn⟩
-        rw [hr] at this; cases this
-
-private theorem normIdx_lt (n : Nat) (i : Int) (k : Nat) (h : normIdx n i = some k) : k < n := by
-  unfold normIdx at h
-  split at h
-  · split at h
-    · cases h; assumption
-    · cases h
-  · split at h
-    · cases h; omega
-    · cases h
-
-private theorem takeIdx_some (xs : List α) (is : List Int) (ys : List α) (h : takeIdx xs is = some ys) :
-    ys.length = is.length ∧
-    ∀ k : Nat, ys[k]? = is[k]?.bind (fun i => (normIdx xs.length i).bind (xs[·]?)) :=
-  mapOpt_some is ys h
-
-private theorem takeIdx_none (xs : List α) (is : List Int) :
-    takeIdx xs is = none ↔ ∃ i ∈ is, normIdx xs.length i = none := by
-  unfold takeIdx
-  rw [mapOpt_none]
-  constructor
-  · rintro ⟨i, hi, hn⟩
-    refine ⟨i, hi, ?_⟩
-    cases hk : normIdx xs.length i with
-    | none => rfl
-    | some k =>
-      have := normIdx_lt _ _ _ hk
-      simp [hk, this] at hn
-  · rintro ⟨i, hi, hn⟩
-    exact ⟨i, hi, by simp [hn]⟩
-
-private theorem takeIdx_mem (xs : List α) (is : List Int) (ys : List α) (h : takeIdx xs is = some ys) :
-    ∀ y ∈ ys, y ∈ xs := by
-  intro y hy
-  obtain ⟨k, hk⟩ := List.getElem?_of_mem hy
-  rw [(takeIdx_some xs is ys h).2 k] at hk
-  cases hi : is[k]? with
-  | none => simp [hi] at hk
-  | some i =>
-    simp only [hi, Option.bind_some] at hk
-    cases hn : normIdx xs.length i with
-    | none => simp [hn] at hk
-    | some a => simp only [hn, Option.bind_some] at hk; exact List.mem_of_getElem? hk
-
-private theorem column_spec (xs : List (List α)) (n j : Nat) (hwf : ∀ r ∈ xs, r.length = n) (hj : j < n) :
-    (xs.filterMap (·[j]?)).length = xs.length ∧
-    ∀ i : Nat, (xs.filterMap (·[j]?))[i]? = xs[i]?.bind (·[j]?) := by
-  induction xs with
-  | nil => simp
-  | cons r rs ih =>
-    have hr : r.length = n := hwf r (by simp)
-    have hlt : j < r.length := by omega
-    obtain ⟨h1, h2⟩ := ih (fun x hx => hwf x (by simp [hx]))
-    have e : (r :: rs).filterMap (·[j]?) = r[j] :: rs.filterMap (·[j]?) := by
-      simp [List.getElem?_eq_getElem hlt]
-    rw [e]
-    refine ⟨by simp [h1], ?_⟩
-    intro i; cases i with
-    | zero => simp [List.getElem?_eq_getElem hlt]
-    | succ i => simpa using h2 i
-
-private theorem transposeN_get (n : Nat) (xs : List (List α)) (j : Nat) :
-    (transposeN n xs)[j]? = if j < n then some (xs.filterMap (·[j]?)) else none := by
-  unfold transposeN
-  by_cases h : j < n
-  · simp [h]
-  · simp [h]
-
-private theorem transposeN_length (n : Nat) (xs : List (List α)) : (transposeN n xs).length = n := by
-  simp [transposeN]
-
-private theorem transposeN_wf (n : Nat) (xs : List (List α)) (hwf : ∀ r ∈ xs, r.length = n) :
-    ∀ c ∈ transposeN n xs, c.length = xs.length := by
-  intro c hc
-  obtain ⟨j, hj⟩ := List.getElem?_of_mem hc
-  rw [transposeN_get] at hj
-  split at hj
-  · rename_i hlt; cases hj; exact (column_spec xs n j hwf hlt).1
-  · cases hj
-
-/-- cell `(i, j)` of the matrix is cell `(j, i)` of its transpose -/
-private theorem transposeN_cell (n : Nat) (xs : List (List α)) (hwf : ∀ r ∈ xs, r.length = n) (i j : Nat) :
-    (transposeN n xs)[j]?.bind (·[i]?) = xs[i]?.bind (·[j]?) := by
-  rw [transposeN_get]
-  split
-  · rename_i hlt; simp only [Option.bind_some]; exact (column_spec xs n j hwf hlt).2 i
-  · rename_i hge
-    cases hi : xs[i]? with
-    | none => simp
-    | some r =>
-      have := hwf r (List.mem_of_getElem? hi)
-      simp only [Option.bind_none, Option.bind_some]
-      symm; rw [List.getElem?_eq_none_iff]; omega
-
-end matrix
-
 /-! ### C15_matrix — Dense and Frame agree with plain matrix semantics -/
 
 section tabular
 variable {α : Type}
-
-private theorem Mat.toMinor_cell (m : Mat α) (h : m.WF) (a b : Nat) :
-    m.toMinor[b]?.bind (·[a]?) = m.cell a b := transposeN_cell m.minor m.major h a b
-
-private theorem Mat.takeMajor_spec (m : Mat α) (h : m.WF) (is : List Int) (t : Mat α)
-    (ht : m.takeMajor is = some t) :
-    t.WF ∧ t.minor = m.minor ∧ t.major.length = is.length ∧
-    ∀ (k : Nat) (ι : Int) (a : Nat), is[k]? = some ι → normIdx m.major.length ι = some a →
-      ∀ b, t.cell k b = m.cell a b := by
-  unfold Mat.takeMajor at ht
-  cases hx : takeIdx m.major is with
-  | none => simp [hx] at ht
-  | some xs =>
-    simp [hx] at ht; subst ht
-    obtain ⟨h1, h2⟩ := takeIdx_some m.major is xs hx
-    refine ⟨fun r hr => h r (takeIdx_mem _ _ _ hx r hr), rfl, h1, ?_⟩
-    intro k ι a hk ha b
-    simp only [Mat.cell]
-    rw [h2 k, hk]; simp [ha]
-
-private theorem Mat.takeMinor_spec (m : Mat α) (h : m.WF) (js : List Int) (t : Mat α)
-    (ht : m.takeMinor js = some t) :
-    t.WF ∧ t.minor = js.length ∧ t.major.length = m.major.length ∧
-    ∀ (k : Nat) (ι : Int) (b : Nat), js[k]? = some ι → normIdx m.minor ι = some b →
-      ∀ a, t.cell a k = m.cell a b := by
-  unfold Mat.takeMinor at ht
-  cases hx : takeIdx (transposeN m.minor m.major) js with
-  | none => simp [hx] at ht
-  | some cs =>
-    simp [hx] at ht; subst ht
-    obtain ⟨h1, h2⟩ := takeIdx_some _ js cs hx
-    have hcs : ∀ c ∈ cs, c.length = m.major.length := fun c hc =>
-      transposeN_wf m.minor m.major h c (takeIdx_mem _ _ _ hx c hc)
-    refine ⟨?_, rfl, transposeN_length _ _, ?_⟩
-    · intro r hr
-      have := transposeN_wf m.major.length cs hcs r hr
-      simp only; omega
-    · intro k ι b hk hb a
-      simp only [Mat.cell]
-      rw [transposeN_cell m.major.length cs hcs k a, h2 k, hk]
-      simp only [Option.bind_some, transposeN_length, hb]
-      exact transposeN_cell m.minor m.major h a b
 
 /-- **views** — for both implementations `to_rows()[i][j]` and `to_columns()[j][i]` are the matrix
 cell `(i, j)`: `to_columns = transpose ∘ to_rows`; and the views have `nrows` resp. `ncols` items. -/
@@ -504,6 +109,18 @@ theorem C15_matrix_views (t : Tab α) (h : t.WF) (i j : Nat) :
   cases t with
   | dense d => exact ⟨rfl, Mat.toMinor_cell d h i j⟩
   | frame f => exact ⟨Mat.toMinor_cell f h j i, rfl⟩
+
+/-- **shape of the views** — `to_rows()` has `nrows` items of `ncols` cells each, `to_columns()` has `ncols`
+items of `nrows` cells each, in both implementations (so together with `C15_matrix_views`:
+`to_columns = transpose ∘ to_rows`, exactly). -/
+theorem C15_matrix_shape (t : Tab α) (h : t.WF) :
+    t.toRows.length = t.nrows ∧ t.toColumns.length = t.ncols ∧
+    (∀ r ∈ t.toRows, r.length = t.ncols) ∧ (∀ c ∈ t.toColumns, c.length = t.nrows) := by
+  cases t with
+  | dense d =>
+    exact ⟨rfl, transposeN_length _ _, h, transposeN_wf d.minor d.major h⟩
+  | frame f =>
+    exact ⟨transposeN_length _ _, rfl, transposeN_wf f.minor f.major h, h⟩
 
 /-- **take_rows** — the result is rectangular with one row per index and row `k` is row
 `is[k]` (negative indices counted from the end) of the original, in both implementations. -/
@@ -638,67 +255,110 @@ theorem C15_slicer_positions (nf : Nat) (nl : Option Nat) :
   · cases nl with
     | none => rfl
     | some n => exact ⟨_, rfl, by simp, by intro k hk; simp [hk]⟩
-
 /-! ### C15_cast — `Reader.__call__` / `Reader._cast` -/
 
-private theorem castColumns_get (cast : Kind → α → α) (es as : List Field) (cs : List (List α)) (j : Nat) :
-    (castColumns cast es as cs)[j]? =
-      (es[j]?).bind fun e => (as[j]?).bind fun a => (cs[j]?).map fun c =>
-        (e.name, if kmatch e.kind a.kind then c else c.map (cast e.kind)) := by
-  induction es generalizing as cs j with
-  | nil => simp [castColumns]
-  | cons e es ih =>
-    cases as with
-    | nil => simp [castColumns]
-    | cons a as =>
-      cases cs with
-      | nil => simp [castColumns]
-      | cons c cs =>
-        cases j with
-        | zero => simp [castColumns]
-        | succ j => simp [castColumns, ih]
-
-private theorem castColumns_length (cast : Kind → α → α) (es as : List Field) (cs : List (List α)) :
-    (castColumns cast es as cs).length = min es.length (min as.length cs.length) := by
-  induction es generalizing as cs with
-  | nil => simp [castColumns]
-  | cons e es ih =>
-    cases as with
-    | nil => simp [castColumns]
-    | cons a as =>
-      cases cs with
-      | nil => simp [castColumns]
-      | cons c cs => simp [castColumns, ih]
-
-private theorem filterMap_total {β γ : Type} (f : β → Option γ) (xs : List β)
-    (h : ∀ x ∈ xs, (f x).isSome) :
-    (xs.filterMap f).length = xs.length ∧ ∀ j : Nat, (xs.filterMap f)[j]? = xs[j]?.bind f := by
-  induction xs with
-  | nil => simp
-  | cons x r ih =>
-    obtain ⟨h1, h2⟩ := ih (fun y hy => h y (by simp [hy]))
-    have hx := h x (by simp)
-    cases hf : f x with
-    | none => simp [hf] at hx
-    | some b =>
-      rw [List.filterMap_cons_some hf]
-      refine ⟨by simp [h1], ?_⟩
-      intro j; cases j with
-      | zero => simp [hf]
-      | succ j => simpa using h2 j
-
-private theorem kmatch_refl (k : Kind) : kmatch k k = true := by cases k <;> rfl
+/-- what `_cast` does to one cell of a column declared `qk` by the query whose (paired) entry field
+declares `ek`: left as is when `ek` is of kind `qk`, otherwise cast to `qk` (`none` = `CastError`). -/
+def castCell (km : Kind → Kind → Bool) (cast : Kind → α → Option α) (qk ek : Kind) (v : α) : Option α :=
+  if km qk ek then some v else cast qk v
 
 /-- What the pipeline must receive: exactly the query's columns in the query's order; column `j` is
 an entry column `k` carrying the `j`-th query name, every cell cast to the query's kind unless the
-entry kind already is of that kind. (Cell-level, i.e. plain matrix semantics of the delivered
-payload; `none = none` beyond the last row.) -/
-def Delivered (cast : Kind → α → α) (pair : Nat → Nat → Nat) (q e : List Field) (data out : Tab α) : Prop :=
+(paired) entry kind already is of that kind, no cell lost or invented. (Cell-level, i.e. plain matrix
+semantics of the delivered payload; `none = none` beyond the last row.) `pair j k` is the position of the
+entry field whose kind decides about the cast: `k` itself is what the property demands. -/
+def Delivered (km : Kind → Kind → Bool) (cast : Kind → α → Option α) (pair : Nat → Nat → Nat) (q e : List Field) (data out : Tab α) : Prop :=
   out.ncols = q.length ∧
   ∀ (j : Nat) (qf : Field), q[j]? = some qf →
     ∃ (k : Nat) (ef pf : Field), e[k]? = some ef ∧ ef.name = qf.name ∧ e[pair j k]? = some pf ∧
-      ∀ i, out.get i j =
-        (data.get i k).map (fun v => if kmatch qf.kind pf.kind then v else cast qf.kind v)
+      ∀ i, out.get i j = (data.get i k).bind (castCell km cast qf.kind pf.kind) ∧
+        ((data.get i k).isSome → (out.get i j).isSome)
+
+/-- every value of a required column that needs a cast can be cast -/
+def Castable (km : Kind → Kind → Bool) (cast : Kind → α → Option α) (q e : List Field) (data : Tab α) : Prop :=
+  ∀ (j k : Nat) (qf ef : Field) (i : Nat) (v : α), q[j]? = some qf → e[k]? = some ef → ef.name = qf.name →
+    km qf.kind ef.kind = false → data.get i k = some v → (cast qf.kind v).isSome
+
+private theorem castColumn_some (km : Kind → Kind → Bool) (cast : Kind → α → Option α) (e a : Field) (c c' : List α)
+    (h : castColumn km cast e a c = some c') :
+    c'.length = c.length ∧ ∀ i : Nat, c'[i]? = c[i]?.bind (castCell km cast e.kind a.kind) := by
+  unfold castColumn at h
+  split at h
+  · rename_i hk
+    cases h
+    refine ⟨rfl, fun i => ?_⟩
+    have : castCell km cast e.kind a.kind = some := by funext v; simp [castCell, hk]
+    rw [this]; simp
+  · rename_i hk
+    obtain ⟨h1, h2⟩ := mapOpt_some c c' h
+    refine ⟨h1, fun i => ?_⟩
+    have : castCell km cast e.kind a.kind = cast e.kind := by funext v; simp [castCell, hk]
+    rw [h2 i, this]
+
+private theorem castColumn_none (km : Kind → Kind → Bool) (cast : Kind → α → Option α) (e a : Field) (c : List α)
+    (h : castColumn km cast e a c = none) :
+    km e.kind a.kind = false ∧ ∃ v ∈ c, cast e.kind v = none := by
+  unfold castColumn at h
+  split at h
+  · cases h
+  · rename_i hk; exact ⟨by simpa using hk, (mapOpt_none c).mp h⟩
+
+private theorem castColumns_some (km : Kind → Kind → Bool) (cast : Kind → α → Option α) (es as : List Field) (cs : List (List α))
+    (cols : List (Name × List α)) (h : castColumns km cast es as cs = some cols) :
+    cols.length = min es.length (min as.length cs.length) ∧
+    ∀ (j : Nat) (e a : Field) (c : List α), es[j]? = some e → as[j]? = some a → cs[j]? = some c →
+      ∃ c', cols[j]? = some (e.name, c') ∧ castColumn km cast e a c = some c' := by
+  induction es generalizing as cs cols with
+  | nil => simp [castColumns] at h; subst h; simp
+  | cons e es ih =>
+    cases as with
+    | nil => simp [castColumns] at h; subst h; simp
+    | cons a as =>
+      cases cs with
+      | nil => simp [castColumns] at h; subst h; simp
+      | cons c cs =>
+        simp only [castColumns] at h
+        cases hc : castColumn km cast e a c with
+        | none => simp [hc] at h
+        | some c' =>
+          cases hr : castColumns km cast es as cs with
+          | none => simp [hc, hr] at h
+          | some rest =>
+            simp only [hc, hr, Option.some.injEq] at h; subst h
+            obtain ⟨h1, h2⟩ := ih as cs rest hr
+            refine ⟨by simp only [List.length_cons, h1]; omega, ?_⟩
+            intro j e' a' c'' he ha hcs
+            cases j with
+            | zero =>
+              simp only [List.getElem?_cons_zero, Option.some.injEq] at he ha hcs
+              subst he ha hcs
+              exact ⟨c', by simp, hc⟩
+            | succ j =>
+              simp only [List.getElem?_cons_succ] at he ha hcs ⊢
+              exact h2 j e' a' c'' he ha hcs
+
+private theorem castColumns_none (km : Kind → Kind → Bool) (cast : Kind → α → Option α) (es as : List Field) (cs : List (List α))
+    (h : castColumns km cast es as cs = none) :
+    ∃ (j : Nat) (e a : Field) (c : List α), es[j]? = some e ∧ as[j]? = some a ∧ cs[j]? = some c ∧
+      castColumn km cast e a c = none := by
+  induction es generalizing as cs with
+  | nil => simp [castColumns] at h
+  | cons e es ih =>
+    cases as with
+    | nil => simp [castColumns] at h
+    | cons a as =>
+      cases cs with
+      | nil => simp [castColumns] at h
+      | cons c cs =>
+        simp only [castColumns] at h
+        cases hc : castColumn km cast e a c with
+        | none => exact ⟨0, e, a, c, rfl, rfl, rfl, hc⟩
+        | some c' =>
+          cases hr : castColumns km cast es as cs with
+          | none =>
+            obtain ⟨j, e', a', c'', h1, h2, h3, h4⟩ := ih as cs hr
+            exact ⟨j + 1, e', a', c'', by simpa using h1, by simpa using h2, by simpa using h3, h4⟩
+          | some rest => simp [hc, hr] at h
 
 private theorem frameOf_get (cols : List (Name × List α)) (i j : Nat) :
     (frameOf cols).get i j = (cols[j]?).bind (·.2[i]?) := by
@@ -708,107 +368,148 @@ private theorem frameOf_get (cols : List (Name × List α)) (i j : Nat) :
 private theorem frameOf_ncols (cols : List (Name × List α)) : (frameOf cols).ncols = cols.length := by
   simp [frameOf, Tab.ncols]
 
+/-- the cells of `_cast`'s result (the non-shortcut path): column `j` is column `j` of the payload it
+was handed, cast as decided by the `j`-th expected and `j`-th actual field -/
+private theorem castStep_cells (km : Kind → Kind → Bool) (cast : Kind → α → Option α) (q actual : List Field) (d out : Tab α)
+    (dwf : d.WF) (h : castStep km cast false q actual d = some out)
+    (hal : q.length ≤ actual.length) (hdn : q.length ≤ d.ncols) :
+    out.ncols = q.length ∧
+    ∀ (j : Nat) (qf pf : Field), q[j]? = some qf → actual[j]? = some pf →
+      ∀ i, out.get i j = (d.get i j).bind (castCell km cast qf.kind pf.kind) ∧
+        ((d.get i j).isSome → (out.get i j).isSome) := by
+  simp only [castStep, Bool.false_eq_true, if_false] at h
+  cases hc : castColumns km cast q actual d.toColumns with
+  | none => simp [hc] at h
+  | some cols =>
+    simp only [hc, Option.map_some, Option.some.injEq] at h; subst h
+    obtain ⟨h1, h2⟩ := castColumns_some km cast q actual d.toColumns cols hc
+    refine ⟨by rw [frameOf_ncols, h1, Tab.toColumns_length]; omega, ?_⟩
+    intro j qf pf hj hp i
+    have hjq : j < q.length := (List.getElem?_eq_some_iff.mp hj).1
+    have hjd : j < d.toColumns.length := by rw [Tab.toColumns_length]; omega
+    obtain ⟨c, hcj⟩ : ∃ c, d.toColumns[j]? = some c := ⟨_, List.getElem?_eq_getElem hjd⟩
+    obtain ⟨c', hc', hcc⟩ := h2 j qf pf c hj hp hcj
+    obtain ⟨hl, hcell⟩ := castColumn_some km cast qf pf c c' hcc
+    have hv := (C15_matrix_views d dwf i j).2
+    rw [hcj] at hv; simp only [Option.bind_some] at hv
+    rw [frameOf_get, hc']; simp only [Option.bind_some]
+    refine ⟨by rw [hcell i, hv], ?_⟩
+    intro hs
+    rw [← hv] at hs
+    have hi : i < c.length := by
+      cases hci : c[i]? with
+      | none => rw [hci] at hs; cases hs
+      | some v => exact (List.getElem?_eq_some_iff.mp hci).1
+    have : i < c'.length := by omega
+    simp [List.getElem?_eq_getElem this]
+
+/-- when `_cast` raises, some cell of a delivered column that needs a cast cannot be cast -/
+private theorem castStep_none (km : Kind → Kind → Bool) (cast : Kind → α → Option α) (b : Bool) (q actual : List Field) (d : Tab α)
+    (dwf : d.WF) (h : castStep km cast b q actual d = none) :
+    ∃ (j : Nat) (qf pf : Field) (i : Nat) (v : α), q[j]? = some qf ∧ actual[j]? = some pf ∧
+      km qf.kind pf.kind = false ∧ d.get i j = some v ∧ cast qf.kind v = none := by
+  unfold castStep at h
+  split at h
+  · cases h
+  · cases hc : castColumns km cast q actual d.toColumns with
+    | some cols => simp [hc] at h
+    | none =>
+      obtain ⟨j, qf, pf, c, hj, hp, hcj, hcc⟩ := castColumns_none km cast q actual d.toColumns hc
+      obtain ⟨hk, v, hv, hn⟩ := castColumn_none km cast qf pf c hcc
+      obtain ⟨i, hi⟩ := List.getElem?_of_mem hv
+      have hview := (C15_matrix_views d dwf i j).2
+      rw [hcj] at hview; simp only [Option.bind_some] at hview
+      exact ⟨j, qf, pf, i, v, hj, hp, hk, by rw [← hview]; exact hi, hn⟩
+
+/-- names agree position by position -/
+private theorem names_pointwise (q e : List Field) (hn : e.map (·.name) = q.map (·.name)) :
+    e.length = q.length ∧
+    ∀ (j : Nat) (qf : Field), q[j]? = some qf → ∃ ef, e[j]? = some ef ∧ ef.name = qf.name := by
+  refine ⟨by simpa using congrArg List.length hn, ?_⟩
+  intro j qf hj
+  have := congrArg (·[j]?) hn
+  simp only [List.getElem?_map, hj, Option.map_some] at this
+  cases he : e[j]? with
+  | none => simp [he] at this
+  | some ef => simp [he] at this; exact ⟨ef, rfl, this⟩
+
 /-- the non-permuted branch (`indices` is `None` or `()`): names agree position by position -/
-private theorem deliver_identity (cast : Kind → α → α) (pair : Nat → Nat → Nat) (hp : ∀ j, pair j j = j)
-    (q e : List Field) (data : Tab α)
-    (hwf : data.WF) (hlen : data.ncols = e.length) (hn : e.map (·.name) = q.map (·.name)) :
-    Delivered cast pair q e data (castStep cast (decide (e = q)) q e data) := by
-  have hl : e.length = q.length := by simpa using congrArg List.length hn
-  have hname : ∀ (j : Nat) (qf : Field), q[j]? = some qf → ∃ ef, e[j]? = some ef ∧ ef.name = qf.name := by
-    intro j qf hj
-    have := congrArg (·[j]?) hn
-    simp only [List.getElem?_map, hj, Option.map_some] at this
-    cases he : e[j]? with
-    | none => simp [he] at this
-    | some ef => simp [he] at this; exact ⟨ef, rfl, this⟩
-  unfold castStep
+private theorem deliver_identity (km : Kind → Kind → Bool) (hkm : ∀ k, km k k = true)
+    (cast : Kind → α → Option α) (pair : Nat → Nat → Nat) (hp : ∀ j, pair j j = j)
+    (q e : List Field) (data out : Tab α)
+    (hwf : data.WF) (hlen : data.ncols = e.length) (hn : e.map (·.name) = q.map (·.name))
+    (h : castStep km cast (decide (e = q)) q e data = some out) :
+    Delivered km cast pair q e data out := by
+  obtain ⟨hl, hname⟩ := names_pointwise q e hn
   by_cases heq : e = q
   · subst heq
-    simp only [decide_true, if_true]
+    simp only [castStep, decide_true, if_true, Option.some.injEq] at h; subst h
     refine ⟨hlen, ?_⟩
     intro j qf hj
-    refine ⟨j, qf, qf, hj, rfl, by rw [hp]; exact hj, ?_⟩
-    intro i; simp [kmatch_refl]
-  · simp only [heq, decide_false, Bool.false_eq_true, if_false]
-    refine ⟨?_, ?_⟩
-    · rw [frameOf_ncols, castColumns_length, Tab.toColumns_length, hlen, hl]; simp
-    · intro j qf hj
-      obtain ⟨ef, he, hnm⟩ := hname j qf hj
-      refine ⟨j, ef, ef, he, hnm, by rw [hp]; exact he, ?_⟩
-      intro i
-      rw [frameOf_get, castColumns_get, hj, he]
-      simp only [Option.bind_some]
-      have hv := (C15_matrix_views data hwf i j).2
-      cases hc : data.toColumns[j]? with
-      | none => rw [hc] at hv; simp at hv; simp [← hv]
-      | some c =>
-        rw [hc] at hv; simp only [Option.bind_some] at hv
-        simp only [Option.map_some, Option.bind_some]
-        rw [← hv]
-        split <;> simp
-
-/-- the permuted branch; `actual` is the field list handed to `_cast` next to the re-ordered data and
-`pair j k` says which entry field sits at its position `j` -/
-private theorem deliver_permuted (cast : Kind → α → α) (pair : Nat → Nat → Nat) (q e actual : List Field)
-    (data d : Tab α) (idx : List Nat)
-    (hwf : data.WF) (hlen : data.ncols = e.length)
-    (hidx : idx.map ((e.map (·.name))[·]?) = (q.map (·.name)).map some)
-    (hd : data.takeColumns (idx.map Int.ofNat) = some d)
-    (hal : q.length ≤ actual.length)
-    (hap : ∀ (j k : Nat), idx[j]? = some k → actual[j]? = e[pair j k]?) :
-    Delivered cast pair q e data (castStep cast false q actual d) := by
-  have hl : idx.length = q.length := by simpa using congrArg List.length hidx
-  have hk : ∀ (j : Nat) (qf : Field), q[j]? = some qf →
-      ∃ k ef, idx[j]? = some k ∧ e[k]? = some ef ∧ ef.name = qf.name := by
+    refine ⟨j, qf, qf, hj, rfl, by rw [hp]; exact hj, fun i => ⟨?_, id⟩⟩
+    have : castCell km cast qf.kind qf.kind = some := by funext v; simp [castCell, hkm]
+    rw [this]; simp
+  · simp only [heq, decide_false] at h
+    obtain ⟨h1, h2⟩ := castStep_cells km cast q e data out hwf h (by omega) (by omega)
+    refine ⟨h1, ?_⟩
     intro j qf hj
-    have := congrArg (·[j]?) hidx
-    simp only [List.getElem?_map, hj, Option.map_some] at this
-    cases hi : idx[j]? with
-    | none => simp [hi] at this
-    | some k =>
-      simp [hi] at this
-      obtain ⟨ef, he, hnm⟩ := this
-      exact ⟨k, ef, rfl, he, hnm⟩
-  obtain ⟨dwf, dnc, _, dcell⟩ := C15_take_columns data d hwf _ hd
-  simp only [castStep, Bool.false_eq_true, if_false]
-  refine ⟨?_, ?_⟩
-  · rw [frameOf_ncols, castColumns_length, Tab.toColumns_length, dnc, List.length_map, hl]; omega
-  · intro j qf hj
-    obtain ⟨k, ef, hi, he, hnm⟩ := hk j qf hj
-    have hjl : j < actual.length := by
-      have := (List.getElem?_eq_some_iff.mp hj).1; omega
-    obtain ⟨pf, hpf⟩ : ∃ pf, actual[j]? = some pf := ⟨actual[j], by simp [hjl]⟩
-    refine ⟨k, ef, pf, he, hnm, by rw [← hap j k hi]; exact hpf, ?_⟩
-    intro i
-    have hkl : k < data.ncols := by rw [hlen]; exact (List.getElem?_eq_some_iff.mp he).1
-    have hcell := dcell j (Int.ofNat k) k (by simp [List.getElem?_map, hi]) (normIdx_ofNat _ _ hkl) i
-    rw [frameOf_get, castColumns_get, hj, hpf]
-    simp only [Option.bind_some]
-    have hv := (C15_matrix_views d dwf i j).2
-    rw [hcell] at hv
-    cases hc : d.toColumns[j]? with
-    | none => rw [hc] at hv; simp at hv; simp [← hv]
-    | some c =>
-      rw [hc] at hv; simp only [Option.bind_some] at hv
-      simp only [Option.map_some, Option.bind_some]
-      rw [← hv]
-      split <;> simp
+    obtain ⟨ef, he, hnm⟩ := hname j qf hj
+    exact ⟨j, ef, ef, he, hnm, by rw [hp]; exact he, h2 j qf ef hj he⟩
 
-/-- indices returned by `_match_entry` are valid positions of the entry -/
+/-- what the index list returned by `_match_entry` gives, per query position -/
+private theorem idx_pointwise (q e : List Field) (idx : List Nat)
+    (hidx : idx.map ((e.map (·.name))[·]?) = (q.map (·.name)).map some) :
+    idx.length = q.length ∧
+    ∀ (j : Nat) (qf : Field), q[j]? = some qf →
+      ∃ k ef, idx[j]? = some k ∧ e[k]? = some ef ∧ ef.name = qf.name := by
+  refine ⟨by simpa using congrArg List.length hidx, ?_⟩
+  intro j qf hj
+  have := congrArg (·[j]?) hidx
+  simp only [List.getElem?_map, hj, Option.map_some] at this
+  cases hi : idx[j]? with
+  | none => simp [hi] at this
+  | some k =>
+    simp [hi] at this
+    obtain ⟨ef, he, hnm⟩ := this
+    exact ⟨k, ef, rfl, he, hnm⟩
+
 private theorem idx_in_range (q e : List Field) (idx : List Nat)
     (hidx : idx.map ((e.map (·.name))[·]?) = (q.map (·.name)).map some) :
     ∀ k ∈ idx, k < e.length := by
   intro k hk
   obtain ⟨j, hj⟩ := List.getElem?_of_mem hk
-  have := congrArg (·[j]?) hidx
-  simp only [List.getElem?_map, hj, Option.map_some] at this
-  cases he : e[k]? with
-  | none =>
-    simp [he] at this
-    cases hq : q[j]? with
-    | none => simp [hq] at this
-    | some qf => simp [hq] at this
-  | some ef => exact (List.getElem?_eq_some_iff.mp he).1
+  have hjl : j < q.length := by
+    rw [← (idx_pointwise q e idx hidx).1]; exact (List.getElem?_eq_some_iff.mp hj).1
+  obtain ⟨k', ef, hk', he, _⟩ := (idx_pointwise q e idx hidx).2 j q[j] (List.getElem?_eq_getElem hjl)
+  rw [hj] at hk'; cases hk'
+  exact (List.getElem?_eq_some_iff.mp he).1
+
+/-- the permuted branch; `actual` is the field list handed to `_cast` next to the re-ordered data and
+`pair j k` says which entry field sits at its position `j` -/
+private theorem deliver_permuted (km : Kind → Kind → Bool) (cast : Kind → α → Option α) (pair : Nat → Nat → Nat) (q e actual : List Field)
+    (data d out : Tab α) (idx : List Nat)
+    (hwf : data.WF) (hlen : data.ncols = e.length)
+    (hidx : idx.map ((e.map (·.name))[·]?) = (q.map (·.name)).map some)
+    (hd : data.takeColumns (idx.map Int.ofNat) = some d)
+    (hal : q.length ≤ actual.length)
+    (hap : ∀ (j k : Nat), idx[j]? = some k → actual[j]? = e[pair j k]?)
+    (h : castStep km cast false q actual d = some out) :
+    Delivered km cast pair q e data out := by
+  obtain ⟨hl, hk⟩ := idx_pointwise q e idx hidx
+  obtain ⟨dwf, dnc, _, dcell⟩ := C15_take_columns data d hwf _ hd
+  obtain ⟨h1, h2⟩ := castStep_cells km cast q actual d out dwf h hal (by rw [dnc, List.length_map]; omega)
+  refine ⟨h1, ?_⟩
+  intro j qf hj
+  obtain ⟨k, ef, hi, he, hnm⟩ := hk j qf hj
+  have hjl : j < actual.length := by
+    have := (List.getElem?_eq_some_iff.mp hj).1; omega
+  obtain ⟨pf, hpf⟩ : ∃ pf, actual[j]? = some pf := ⟨actual[j], by simp [hjl]⟩
+  refine ⟨k, ef, pf, he, hnm, by rw [← hap j k hi]; exact hpf, ?_⟩
+  intro i
+  have hkl : k < data.ncols := by rw [hlen]; exact (List.getElem?_eq_some_iff.mp he).1
+  have hcell := dcell j (Int.ofNat k) k (by simp [List.getElem?_map, hi]) (normIdx_ofNat _ _ hkl) i
+  rw [← hcell]
+  exact h2 j qf pf hj hpf i
 
 private theorem take_ok (e : List Field) (data : Tab α) (idx : List Nat) (hlen : data.ncols = e.length)
     (hin : ∀ k ∈ idx, k < e.length) : (data.takeColumns (idx.map Int.ofNat)).isSome := by
@@ -821,8 +522,8 @@ private theorem take_ok (e : List Field) (data : Tab α) (idx : List Nat) (hlen 
 
 /-- **refusal** — `Reader.__call__` raises `MissingError` exactly when the entry lacks a query column
 (both for the released and the repaired code; nothing is padded). -/
-theorem C15_refusal (cast : Kind → α → α) (legacy : Bool) (q e : List Field) (data : Tab α) :
-    readerCall cast legacy q e data = .missing ↔ ∃ c ∈ q.map (·.name), c ∉ e.map (·.name) := by
+theorem C15_refusal (km : Kind → Kind → Bool) (cast : Kind → α → Option α) (legacy : Bool) (q e : List Field) (data : Tab α) :
+    readerCall km cast legacy q e data = .missing ↔ ∃ c ∈ q.map (·.name), c ∉ e.map (·.name) := by
   rw [← C15_match_refused_iff]
   unfold readerCall
   cases hm : matchEntry (q.map (·.name)) (e.map (·.name)) with
@@ -831,17 +532,19 @@ theorem C15_refusal (cast : Kind → α → α) (legacy : Bool) (q e : List Fiel
     | false => simp
     | true =>
       cases o with
-      | none => simp
+      | none => simp only; split <;> simp
       | some idx =>
         cases idx with
-        | nil => simp
+        | nil => simp only; split <;> simp
         | cons i is =>
           simp only
-          cases data.takeColumns ((i :: is).map Int.ofNat) <;> simp
+          cases data.takeColumns ((i :: is).map Int.ofNat) with
+          | none => simp
+          | some d => simp only; split <;> simp
 
 /-- `take_columns(indices)` never raises on a payload as wide as its schema. -/
-theorem C15_no_index_error (cast : Kind → α → α) (legacy : Bool) (q e : List Field) (data : Tab α)
-    (hlen : data.ncols = e.length) : readerCall cast legacy q e data ≠ .indexError := by
+theorem C15_no_index_error (km : Kind → Kind → Bool) (cast : Kind → α → Option α) (legacy : Bool) (q e : List Field) (data : Tab α)
+    (hlen : data.ncols = e.length) : readerCall km cast legacy q e data ≠ .indexError := by
   unfold readerCall
   cases hm : matchEntry (q.map (·.name)) (e.map (·.name)) with
   | mk b o =>
@@ -849,129 +552,241 @@ theorem C15_no_index_error (cast : Kind → α → α) (legacy : Bool) (q e : Li
     | false => simp
     | true =>
       cases o with
-      | none => simp
+      | none => simp only; split <;> simp
       | some idx =>
         cases idx with
-        | nil => simp
+        | nil => simp only; split <;> simp
         | cons i is =>
           simp only
           have := take_ok e data (i :: is) hlen (idx_in_range q e _ (C15_match_spec _ _ _ hm))
           cases hd : data.takeColumns ((i :: is).map Int.ofNat) with
           | none => rw [hd] at this; cases this
-          | some d => simp
+          | some d => simp only; split <;> simp
 
-/-- common skeleton of the two `Delivered` theorems -/
-private theorem reader_delivers (cast : Kind → α → α) (legacy : Bool) (pair : Nat → Nat → Nat)
-    (hp : ∀ j, pair j j = j) (q e : List Field) (data out : Tab α)
-    (hwf : data.WF) (hlen : data.ncols = e.length)
-    (hal : ∀ idx, q.length ≤ (actualFields legacy e idx).length ∨ idx.length ≠ q.length ∨ ∃ k ∈ idx, ¬ k < e.length)
-    (hap : ∀ (idx : List Nat) (j k : Nat), idx[j]? = some k → k < e.length →
-      (actualFields legacy e idx)[j]? = e[pair j k]? ∨ ∃ k ∈ idx, ¬ k < e.length)
-    (h : readerCall cast legacy q e data = .data out) : Delivered cast pair q e data out := by
-  unfold readerCall at h
+/-- what `readerCall` does, branch by branch (pure case analysis of its definition) -/
+private theorem readerCall_branches (km : Kind → Kind → Bool) (cast : Kind → α → Option α) (legacy : Bool) (q e : List Field)
+    (data : Tab α) (hlen : data.ncols = e.length) :
+    (readerCall km cast legacy q e data = .missing) ∨
+    (e.map (·.name) = q.map (·.name) ∧
+      readerCall km cast legacy q e data =
+        match castStep km cast (decide (e = q)) q e data with | none => .castError | some o => .data o) ∨
+    (q = [] ∧ readerCall km cast legacy q e data =
+        match castStep km cast (decide (e = q)) q e data with | none => .castError | some o => .data o) ∨
+    (∃ idx d, idx.map ((e.map (·.name))[·]?) = (q.map (·.name)).map some ∧
+      data.takeColumns (idx.map Int.ofNat) = some d ∧
+      readerCall km cast legacy q e data =
+        match castStep km cast false q (actualFields legacy e idx) d with | none => .castError | some o => .data o) := by
+  unfold readerCall
   cases hm : matchEntry (q.map (·.name)) (e.map (·.name)) with
   | mk b o =>
-    rw [hm] at h
     cases b with
-    | false => simp at h
+    | false => exact Or.inl rfl
     | true =>
       cases o with
-      | none =>
-        simp only [Outcome.data.injEq] at h; subst h
-        exact deliver_identity cast pair hp q e data hwf hlen ((C15_match_identical_iff _ _).mp hm)
+      | none => exact Or.inr (Or.inl ⟨(C15_match_identical_iff _ _).mp hm, rfl⟩)
       | some idx =>
         have hspec := C15_match_spec _ _ _ hm
         cases idx with
         | nil =>
-          simp only [Outcome.data.injEq] at h; subst h
           have hq : q = [] := by
             have := congrArg List.length hspec; simp at this; exact List.eq_nil_of_length_eq_zero this.symm
-          subst hq
-          refine ⟨?_, by intro j qf hj; simp at hj⟩
-          unfold castStep
-          split
-          · rename_i he; simp at he; subst he; simpa using hlen
-          · simp [frameOf_ncols, castColumns]
+          exact Or.inr (Or.inr (Or.inl ⟨hq, rfl⟩))
         | cons i is =>
-          simp only at h
-          have hin := idx_in_range q e _ hspec
+          have hok := take_ok e data (i :: is) hlen (idx_in_range q e _ hspec)
           cases hd : data.takeColumns ((i :: is).map Int.ofNat) with
-          | none => rw [hd] at h; cases h
-          | some d =>
-            rw [hd] at h; simp only [Outcome.data.injEq] at h; subst h
-            have hl : (i :: is).length = q.length := by simpa using congrArg List.length hspec
-            refine deliver_permuted cast pair q e _ data d (i :: is) hwf hlen hspec hd ?_ ?_
-            · rcases hal (i :: is) with h1 | h2 | ⟨k, hk, hn⟩
-              · exact h1
-              · exact absurd hl h2
-              · exact absurd (hin k hk) hn
-            · intro j k hj
-              have hkl : k < e.length := hin k (List.mem_of_getElem? hj)
-              rcases hap (i :: is) j k hj hkl with h1 | ⟨k', hk', hn⟩
-              · exact h1
-              · exact absurd (hin k' hk') hn
+          | none => rw [hd] at hok; cases hok
+          | some d => exact Or.inr (Or.inr (Or.inr ⟨i :: is, d, hspec, hd, by simp only [hd]; rfl⟩))
 
-/-- **C15_cast** (repaired code, fixes/C15-cast-permuted-schema.diff) — for every query schema, entry
-schema and rectangular payload of the entry's width, in both tabular implementations: if data is
-delivered it has exactly the query's columns in the query's order, column `j` is an entry column `k`
-named like query field `j`, and its cells are cast to the query kind exactly when that kind does not
-match the kind of **that entry column** (`pair j k = k`). -/
-theorem C15_cast (cast : Kind → α → α) (q e : List Field) (data out : Tab α)
+/-- common skeleton of the two `Delivered` theorems -/
+private theorem reader_delivers (km : Kind → Kind → Bool) (hkm : ∀ k, km k k = true)
+    (cast : Kind → α → Option α) (legacy : Bool) (pair : Nat → Nat → Nat)
+    (hp : ∀ j, pair j j = j) (q e : List Field) (data out : Tab α)
     (hwf : data.WF) (hlen : data.ncols = e.length)
-    (h : readerCall cast false q e data = .data out) :
-    Delivered cast (fun _ k => k) q e data out := by
-  refine reader_delivers cast false (fun _ k => k) (fun _ => rfl) q e data out hwf hlen ?_ ?_ h
-  · intro idx
-    by_cases hin : ∀ k ∈ idx, k < e.length
-    · by_cases hl : idx.length = q.length
-      · left
-        have := (filterMap_total (e[·]?) idx (fun k hk => by simp [hin k hk])).1
-        simp only [actualFields, Bool.false_eq_true, if_false]; omega
-      · exact Or.inr (Or.inl hl)
-    · right; right
-      have : ∃ k, k ∈ idx ∧ ¬ k < e.length := by
-        apply Classical.byContradiction; intro hc; apply hin; intro k hk
-        apply Classical.byContradiction; intro hk'; exact hc ⟨k, hk, hk'⟩
-      exact this
-  · intro idx j k hj hk
-    by_cases hin : ∀ k ∈ idx, k < e.length
-    · left
-      have := (filterMap_total (e[·]?) idx (fun k hk => by simp [hin k hk])).2 j
-      simp only [actualFields, Bool.false_eq_true, if_false]
-      rw [this, hj]; rfl
-    · right
-      apply Classical.byContradiction; intro hc; apply hin; intro k hk
-      apply Classical.byContradiction; intro hk'; exact hc ⟨k, hk, hk'⟩
+    (hal : ∀ idx : List Nat, idx.length = q.length → (∀ k ∈ idx, k < e.length) →
+      q.length ≤ (actualFields legacy e idx).length)
+    (hap : ∀ (idx : List Nat), (∀ k ∈ idx, k < e.length) → ∀ (j k : Nat), idx[j]? = some k →
+      (actualFields legacy e idx)[j]? = e[pair j k]?)
+    (h : readerCall km cast legacy q e data = .data out) : Delivered km cast pair q e data out := by
+  rcases readerCall_branches km cast legacy q e data hlen with hb | ⟨hn, hb⟩ | ⟨hq, hb⟩ | ⟨idx, d, hspec, hd, hb⟩
+  · rw [hb] at h; cases h
+  · rw [hb] at h
+    cases hcs : castStep km cast (decide (e = q)) q e data with
+    | none => rw [hcs] at h; cases h
+    | some o =>
+      rw [hcs] at h; simp only [Outcome.data.injEq] at h; subst h
+      exact deliver_identity km hkm cast pair hp q e data o hwf hlen hn hcs
+  · rw [hb] at h; subst hq
+    cases hcs : castStep km cast (decide (e = [])) [] e data with
+    | none => rw [hcs] at h; cases h
+    | some o =>
+      rw [hcs] at h; simp only [Outcome.data.injEq] at h; subst h
+      refine ⟨?_, by intro j qf hj; simp at hj⟩
+      unfold castStep at hcs
+      split at hcs
+      · rename_i he; simp at he; subst he; cases hcs; simpa using hlen
+      · simp [castColumns] at hcs; subst hcs; simp [frameOf_ncols]
+  · rw [hb] at h
+    cases hcs : castStep km cast false q (actualFields legacy e idx) d with
+    | none => rw [hcs] at h; cases h
+    | some o =>
+      rw [hcs] at h; simp only [Outcome.data.injEq] at h; subst h
+      have hin := idx_in_range q e idx hspec
+      have hl := (idx_pointwise q e idx hspec).1
+      exact deliver_permuted km cast pair q e _ data d o idx hwf hlen hspec hd (hal idx hl hin) (hap idx hin) hcs
 
-/-- **C15_cast_legacy** (the code as released, defect D16 characterised) — the same, except that the
-kind deciding the cast of delivered column `j` is the kind of entry field **`j`** (`pair j k = j`),
-not of the entry column `k` that was delivered. -/
-theorem C15_cast_legacy (cast : Kind → α → α) (q e : List Field) (data out : Tab α)
+private theorem actualFields_fixed (e : List Field) (idx : List Nat) (hin : ∀ k ∈ idx, k < e.length) :
+    (actualFields false e idx).length = idx.length ∧
+    ∀ (j k : Nat), idx[j]? = some k → (actualFields false e idx)[j]? = e[k]? := by
+  have := filterMap_total (e[·]?) idx (fun k hk => by simp [hin k hk])
+  simp only [actualFields, Bool.false_eq_true, if_false]
+  refine ⟨this.1, ?_⟩
+  intro j k hj
+  rw [this.2 j, hj]; rfl
+
+/-- **C15_cast** (the code in /repo, repaired by 8698b70) — for every query schema, entry schema and
+rectangular payload of the entry's width, in both tabular implementations: if data is delivered it has
+exactly the query's columns in the query's order, column `j` is an entry column `k` named like query
+field `j`, and its cells are cast to the query kind exactly when that kind does not match the kind of
+**that entry column** (`pair j k = k`); no row is lost or invented. -/
+theorem C15_cast (km : Kind → Kind → Bool) (hkm : ∀ k, km k k = true)
+    (cast : Kind → α → Option α) (q e : List Field) (data out : Tab α)
+    (hwf : data.WF) (hlen : data.ncols = e.length)
+    (h : readerCall km cast false q e data = .data out) :
+    Delivered km cast (fun _ k => k) q e data out := by
+  refine reader_delivers km hkm cast false (fun _ k => k) (fun _ => rfl) q e data out hwf hlen ?_ ?_ h
+  · intro idx hl hin; rw [(actualFields_fixed e idx hin).1]; omega
+  · intro idx hin j k hj; exact (actualFields_fixed e idx hin).2 j k hj
+
+/-- **a `CastError` is always justified** — when the reader refuses a complete entry with `CastError`,
+some value of a required column that needs a cast (its entry kind is not of the query kind) cannot be
+cast to the declared kind. -/
+theorem C15_cast_error_sound (km : Kind → Kind → Bool) (cast : Kind → α → Option α) (q e : List Field) (data : Tab α)
+    (hwf : data.WF) (hlen : data.ncols = e.length)
+    (h : readerCall km cast false q e data = .castError) :
+    ∃ (j k : Nat) (qf ef : Field) (i : Nat) (v : α), q[j]? = some qf ∧ e[k]? = some ef ∧ ef.name = qf.name ∧
+      km qf.kind ef.kind = false ∧ data.get i k = some v ∧ cast qf.kind v = none := by
+  rcases readerCall_branches km cast false q e data hlen with hb | ⟨hn, hb⟩ | ⟨hq, hb⟩ | ⟨idx, d, hspec, hd, hb⟩
+  · rw [hb] at h; cases h
+  · rw [hb] at h
+    cases hcs : castStep km cast (decide (e = q)) q e data with
+    | some o => rw [hcs] at h; cases h
+    | none =>
+      obtain ⟨j, qf, pf, i, v, hj, hp, hk, hg, hc⟩ := castStep_none km cast _ q e data hwf hcs
+      obtain ⟨ef, he, hnm⟩ := (names_pointwise q e hn).2 j qf hj
+      rw [he] at hp; simp only [Option.some.injEq] at hp; subst hp
+      exact ⟨j, j, qf, ef, i, v, hj, he, hnm, hk, hg, hc⟩
+  · rw [hb] at h; subst hq
+    cases hcs : castStep km cast (decide (e = [])) [] e data with
+    | some o => rw [hcs] at h; cases h
+    | none =>
+      obtain ⟨j, qf, _, _, _, hj, _⟩ := castStep_none km cast _ [] e data hwf hcs
+      simp at hj
+  · rw [hb] at h
+    cases hcs : castStep km cast false q (actualFields false e idx) d with
+    | some o => rw [hcs] at h; cases h
+    | none =>
+      obtain ⟨dwf, _, _, dcell⟩ := C15_take_columns data d hwf _ hd
+      obtain ⟨j, qf, pf, i, v, hj, hp, hk, hg, hc⟩ := castStep_none km cast _ q _ d dwf hcs
+      obtain ⟨k, ef, hi, he, hnm⟩ := (idx_pointwise q e idx hspec).2 j qf hj
+      have hin := idx_in_range q e idx hspec
+      rw [(actualFields_fixed e idx hin).2 j k hi, he] at hp; simp only [Option.some.injEq] at hp; subst hp
+      have hkl : k < data.ncols := by rw [hlen]; exact (List.getElem?_eq_some_iff.mp he).1
+      have hcell := dcell j (Int.ofNat k) k (by simp [List.getElem?_map, hi]) (normIdx_ofNat _ _ hkl) i
+      exact ⟨j, k, qf, ef, i, v, hj, he, hnm, hk, by rw [← hcell]; exact hg, hc⟩
+
+/-- **C15_served** (the property, first sentence, as a total statement about the code in /repo) — for
+every query schema, every entry schema containing all the query's names (any order, any extra
+columns) and every rectangular payload of the entry's width whose required values can be cast, in both
+tabular implementations: the reader does deliver, and what it delivers is `Delivered` — exactly the
+query's columns, in the query's order, each from an entry column of that name, each value cast to the
+declared kind (or left when the entry already declares that kind). -/
+theorem C15_served (km : Kind → Kind → Bool) (hkm : ∀ k, km k k = true)
+    (cast : Kind → α → Option α) (q e : List Field) (data : Tab α)
+    (hwf : data.WF) (hlen : data.ncols = e.length)
+    (hsub : ∀ c ∈ q.map (·.name), c ∈ e.map (·.name)) (hcast : Castable km cast q e data) :
+    ∃ out, readerCall km cast false q e data = .data out ∧ Delivered km cast (fun _ k => k) q e data out := by
+  cases h : readerCall km cast false q e data with
+  | missing =>
+    obtain ⟨c, hc, hn⟩ := (C15_refusal km cast false q e data).mp h
+    exact absurd (hsub c hc) hn
+  | indexError => exact absurd h (C15_no_index_error km cast false q e data hlen)
+  | castError =>
+    obtain ⟨j, k, qf, ef, i, v, hj, he, hnm, hk, hg, hc⟩ := C15_cast_error_sound km cast q e data hwf hlen h
+    have := hcast j k qf ef i v hj he hnm hk hg
+    rw [hc] at this; cases this
+  | data out => exact ⟨out, rfl, C15_cast km hkm cast q e data out hwf hlen h⟩
+
+/-- entry field names are pairwise distinct (what `dsl.Schema` enforces) -/
+def DistinctNames (e : List Field) : Prop :=
+  ∀ (k k' : Nat) (ef ef' : Field), e[k]? = some ef → e[k']? = some ef' → ef.name = ef'.name → k = k'
+
+/-- `List.Nodup` on the names gives `DistinctNames` -/
+theorem C15_distinct_of_nodup (e : List Field) (h : (e.map (·.name)).Nodup) : DistinctNames e := by
+  intro k k' ef ef' hk hk' hn
+  have hkl := (List.getElem?_eq_some_iff.mp hk)
+  have hkl' := (List.getElem?_eq_some_iff.mp hk')
+  rw [List.nodup_iff_pairwise_ne, List.pairwise_iff_getElem] at h
+  rcases Nat.lt_trichotomy k k' with hlt | heq | hgt
+  · have := h k k' (by simpa using hkl.1) (by simpa using hkl'.1) hlt
+    simp only [List.getElem_map, hkl.2, hkl'.2] at this
+    exact absurd hn this
+  · exact heq
+  · have := h k' k (by simpa using hkl'.1) (by simpa using hkl.1) hgt
+    simp only [List.getElem_map, hkl.2, hkl'.2] at this
+    exact absurd hn.symm this
+
+/-- **un-castable values are refused, never delivered** — for an entry with distinct names: if some
+value of a required column that needs a cast cannot be cast, no data is delivered (the outcome is
+`CastError`, or `MissingError` if a column is lacking as well). -/
+theorem C15_uncastable_refused (km : Kind → Kind → Bool) (hkm : ∀ k, km k k = true)
+    (cast : Kind → α → Option α) (q e : List Field) (data : Tab α)
+    (hwf : data.WF) (hlen : data.ncols = e.length) (hd : DistinctNames e)
+    (j k : Nat) (qf ef : Field) (i : Nat) (v : α) (hj : q[j]? = some qf) (he : e[k]? = some ef)
+    (hnm : ef.name = qf.name) (hk : km qf.kind ef.kind = false) (hg : data.get i k = some v)
+    (hc : cast qf.kind v = none) :
+    ∀ out, readerCall km cast false q e data ≠ .data out := by
+  intro out h
+  obtain ⟨_, h2⟩ := C15_cast km hkm cast q e data out hwf hlen h
+  obtain ⟨k', ef', pf, he', hnm', hp, hcell⟩ := h2 j qf hj
+  have hkk : k' = k := hd k' k ef' ef he' he (by rw [hnm', hnm])
+  subst hkk
+  rw [he] at he' hp; cases he'; cases hp
+  obtain ⟨h3, h4⟩ := hcell i
+  rw [hg] at h3 h4
+  simp only [Option.bind_some, castCell, hk, Bool.false_eq_true, if_false, hc] at h3
+  have := h4 rfl
+  rw [h3] at this; cases this
+
+/-- **C15_cast_legacy** (the code as released before 8698b70, defect D16 characterised) — the same as
+`C15_cast`, except that the kind deciding the cast of delivered column `j` is the kind of entry field
+**`j`** (`pair j k = j`), not of the entry column `k` that was delivered. -/
+theorem C15_cast_legacy (km : Kind → Kind → Bool) (hkm : ∀ k, km k k = true)
+    (cast : Kind → α → Option α) (q e : List Field) (data out : Tab α)
     (hwf : data.WF) (hlen : data.ncols = e.length) (hq : q.length ≤ e.length)
-    (h : readerCall cast true q e data = .data out) :
-    Delivered cast (fun j _ => j) q e data out := by
-  refine reader_delivers cast true (fun j _ => j) (fun _ => rfl) q e data out hwf hlen ?_ ?_ h
-  · intro idx; left; simpa [actualFields] using hq
-  · intro idx j k _ _; left; simp [actualFields]
+    (h : readerCall km cast true q e data = .data out) :
+    Delivered km cast (fun j _ => j) q e data out := by
+  refine reader_delivers km hkm cast true (fun j _ => j) (fun _ => rfl) q e data out hwf hlen ?_ ?_ h
+  · intro idx _ _; simpa [actualFields] using hq
+  · intro idx _ j k _; simp [actualFields]
 
 /-- the statement at full strength for the released code -/
 def C15_cast_legacy_full : Prop :=
-  ∀ (α : Type) (cast : Kind → α → α) (q e : List Field) (data out : Tab α),
-    data.WF → data.ncols = e.length → readerCall cast true q e data = .data out →
-    Delivered cast (fun _ k => k) q e data out
+  ∀ (α : Type) (km : Kind → Kind → Bool) (cast : Kind → α → Option α) (q e : List Field) (data out : Tab α),
+    (∀ k, km k k = true) → data.WF → data.ncols = e.length → readerCall km cast true q e data = .data out →
+    Delivered km cast (fun _ k => k) q e data out
 
 /-- kinds of the entry are all the same -/
 def homogeneous (e : List Field) : Bool :=
   e.all (fun f => f.kind == ((e.head?).map (·.kind)).getD .integer)
 
-/-- **partial** — the released code is right whenever the entry columns come in the query's order
-(names agree position by position) or all entry columns have one kind. -/
-theorem C15_cast_legacy_partial (cast : Kind → α → α) (q e : List Field) (data out : Tab α)
+/-- **partial** — the released code is right whenever all entry columns have one kind … -/
+theorem C15_cast_legacy_partial (km : Kind → Kind → Bool) (hkm : ∀ k, km k k = true)
+    (cast : Kind → α → Option α) (q e : List Field) (data out : Tab α)
     (hwf : data.WF) (hlen : data.ncols = e.length) (hq : q.length ≤ e.length)
     (hyp : homogeneous e = true)
-    (h : readerCall cast true q e data = .data out) :
-    Delivered cast (fun _ k => k) q e data out := by
-  obtain ⟨h1, h2⟩ := C15_cast_legacy cast q e data out hwf hlen hq h
+    (h : readerCall km cast true q e data = .data out) :
+    Delivered km cast (fun _ k => k) q e data out := by
+  obtain ⟨h1, h2⟩ := C15_cast_legacy km hkm cast q e data out hwf hlen hq h
   refine ⟨h1, ?_⟩
   intro j qf hj
   obtain ⟨k, ef, pf, he, hn, hp, hc⟩ := h2 j qf hj
@@ -979,25 +794,31 @@ theorem C15_cast_legacy_partial (cast : Kind → α → α) (q e : List Field) (
   have hk : pf.kind = ef.kind := by
     simp only [homogeneous, List.all_eq_true, beq_iff_eq] at hyp
     rw [hyp pf (List.mem_of_getElem? hp), hyp ef (List.mem_of_getElem? he)]
-  intro i; rw [hc i, hk]
+  intro i; rw [← hk]; exact hc i
 
-theorem C15_cast_legacy_partial_identity (cast : Kind → α → α) (q e : List Field) (data out : Tab α)
+/-- … or the entry columns come in the query's order (names agree position by position). -/
+theorem C15_cast_legacy_partial_identity (km : Kind → Kind → Bool) (hkm : ∀ k, km k k = true)
+    (cast : Kind → α → Option α) (q e : List Field) (data out : Tab α)
     (hwf : data.WF) (hlen : data.ncols = e.length) (hyp : e.map (·.name) = q.map (·.name))
-    (h : readerCall cast true q e data = .data out) :
-    Delivered cast (fun _ k => k) q e data out := by
+    (h : readerCall km cast true q e data = .data out) :
+    Delivered km cast (fun _ k => k) q e data out := by
   have hm := (C15_match_identical_iff (q.map (·.name)) (e.map (·.name))).mpr hyp
   unfold readerCall at h
   rw [hm] at h
-  simp only [Outcome.data.injEq] at h; subst h
-  exact deliver_identity cast _ (fun _ => rfl) q e data hwf hlen hyp
+  simp only at h
+  cases hcs : castStep km cast (decide (e = q)) q e data with
+  | none => rw [hcs] at h; cases h
+  | some o =>
+    rw [hcs] at h; simp only [Outcome.data.injEq] at h; subst h
+    exact deliver_identity km hkm cast _ (fun _ => rfl) q e data o hwf hlen hyp hcs
 
 /-- **counterexample (D16)** — query `(a : string)`, entry `(b : string, a : integer)`, one row
 `b = 5, a = 7`: the released code delivers `7` as is (the cast is decided by `b`'s kind) where the
 query declares a string. Values are naturals, "cast" is `+ 100` to make it visible. -/
 theorem C15_cast_legacy_counterexample : ¬ C15_cast_legacy_full := by
   intro hfull
-  have h := hfull Nat (fun _ v => v + 100) [⟨0, .string⟩] [⟨1, .string⟩, ⟨0, .integer⟩]
-    (.dense ⟨[[5, 7]], 2⟩) (.frame ⟨[[7]], 1⟩)
+  have h := hfull Nat kmatch (fun _ v => some (v + 100)) [⟨0, .string⟩] [⟨1, .string⟩, ⟨0, .integer⟩]
+    (.dense ⟨[[5, 7]], 2⟩) (.frame ⟨[[7]], 1⟩) (by intro k; cases k <;> rfl)
     (by intro r hr; simp at hr; subst hr; rfl) rfl (by decide)
   obtain ⟨_, h2⟩ := h
   obtain ⟨k, ef, pf, he, hn, hp, hc⟩ := h2 0 ⟨0, .string⟩ rfl
@@ -1005,19 +826,26 @@ theorem C15_cast_legacy_counterexample : ¬ C15_cast_legacy_full := by
   | 0, he, _ => simp at he; subst he; simp at hn
   | 1, he, hp =>
     simp at hp; subst hp
-    have := hc 0
-    simp [Tab.get, Mat.cell, kmatch] at this
+    have := (hc 0).1
+    simp [Tab.get, Mat.cell, kmatch, castCell] at this
   | k + 2, he, _ => simp at he
 
-/-! ### the kind lattice, re-checked against the live classes -/
+/-! ### the kind lattice, re-extracted from the live classes on every run -/
 
-/-- `kmatch` of the model is the `match` relation extracted from the imported kind classes. -/
-theorem C15_kind_table : ∀ a b : Kind, kmatch a b = ForML.Generated.C15Kinds.liveMatch a b := by
-  intro a b; cases a <;> cases b <;> rfl
+/-- The match relation the code has **now** (`X().match(Y())` evaluated on the imported kind classes,
+`ForML.Generated.C15Kinds.liveMatch`, which is what the driver runs the model with) is reflexive — the only
+fact about it the theorems above need (`hkm`); they therefore apply to the live relation as it is. -/
+theorem C15_kind_table : ∀ k : Kind, ForML.Generated.C15Kinds.liveMatch k k = true := by
+  intro k; cases k <;> rfl
 
-/-- the primitive kinds the model knows are the ones the module defines -/
-theorem C15_kind_names : ForML.Generated.C15Kinds.primitiveKinds =
-    ["Boolean", "Date", "Decimal", "Float", "Integer", "String", "Timestamp"] := by decide
+/-- `C15_served` instantiated with the live relation. -/
+theorem C15_served_live (cast : Kind → α → Option α) (q e : List Field) (data : Tab α)
+    (hwf : data.WF) (hlen : data.ncols = e.length)
+    (hsub : ∀ c ∈ q.map (·.name), c ∈ e.map (·.name))
+    (hcast : Castable ForML.Generated.C15Kinds.liveMatch cast q e data) :
+    ∃ out, readerCall ForML.Generated.C15Kinds.liveMatch cast false q e data = .data out ∧
+      Delivered ForML.Generated.C15Kinds.liveMatch cast (fun _ k => k) q e data out :=
+  C15_served _ C15_kind_table cast q e data hwf hlen hsub hcast
 
 end tabular
 
@@ -1033,10 +861,44 @@ example : (Tab.dense ⟨[[11, 12, 13], [21, 22, 23]], 3⟩).takeColumns [-1, 0, 
 example : (Tab.frame ⟨[[11, 21], [12, 22], [13, 23]], 2⟩).takeRows [1, 1, -2] =
     some (.frame ⟨[[21, 21, 11], [22, 22, 12], [23, 23, 13]], 3⟩) := by decide
 example : (Tab.frame ⟨[[11, 21], [12, 22], [13, 23]], 2⟩).takeRows [2] = none := by decide
-example : readerCall (fun _ v => v + 100) false [⟨0, .string⟩] [⟨1, .string⟩, ⟨0, .integer⟩]
+example : readerCall kmatch (fun _ v => some (v + 100)) false [⟨0, .string⟩] [⟨1, .string⟩, ⟨0, .integer⟩]
     (.dense ⟨[[5, 7]], 2⟩) = .data (.frame ⟨[[107]], 1⟩) := by decide
-example : readerCall (fun _ v => v + 100) true [⟨0, .string⟩] [⟨1, .string⟩, ⟨0, .integer⟩]
+example : readerCall kmatch (fun _ v => some (v + 100)) true [⟨0, .string⟩] [⟨1, .string⟩, ⟨0, .integer⟩]
     (.dense ⟨[[5, 7]], 2⟩) = .data (.frame ⟨[[7]], 1⟩) := by decide
+-- a value that cannot be cast: refused, in the identical and in a re-ordered arrangement
+example : readerCall kmatch (fun _ v => if v < 10 then some (v + 100) else none) false [⟨0, .string⟩, ⟨1, .integer⟩]
+    [⟨1, .integer⟩, ⟨0, .integer⟩] (.frame ⟨[[1, 2], [3, 44]], 2⟩) = .castError := by decide
+example : readerCall kmatch (fun _ v => if v < 10 then some (v + 100) else none) false [⟨0, .string⟩]
+    [⟨0, .integer⟩] (.dense ⟨[[3], [44]], 1⟩) = .castError := by decide
+-- an empty payload (no rows) keeps the query's columns
+example : readerCall kmatch (fun _ v => some (v + 100)) false [⟨0, .string⟩] [⟨1, .string⟩, ⟨0, .integer⟩]
+    (.dense ⟨[], 2⟩) = .data (.frame ⟨[[]], 0⟩) := by decide
+-- the hypotheses of `C15_served` are satisfiable by a non-trivial object (superset, re-ordered, casts needed)
+example : Castable kmatch (fun _ v => if v < 10 then some (v + 100) else none) [⟨0, .string⟩, ⟨1, .integer⟩]
+    [⟨1, .integer⟩, ⟨2, .float⟩, ⟨0, .integer⟩] (.frame ⟨[[1, 2], [50, 60], [3, 4]], 2⟩) := by
+  intro j k qf ef i v hj he hnm hk hg
+  match j, hj with
+  | 0, hj =>
+    simp at hj; subst hj
+    match k, he with
+    | 0, he => simp at he; subst he; simp at hnm
+    | 1, he => simp at he; subst he; simp at hnm
+    | 2, he =>
+      match i, hg with
+      | 0, hg => simp [Tab.get, Mat.cell] at hg; subst hg; rfl
+      | 1, hg => simp [Tab.get, Mat.cell] at hg; subst hg; rfl
+      | i + 2, hg => simp [Tab.get, Mat.cell] at hg
+    | k + 3, he => simp at he
+  | 1, hj =>
+    simp at hj; subst hj
+    match k, he with
+    | 0, he => simp at he; subst he; simp [kmatch] at hk
+    | 1, he => simp at he; subst he; simp at hnm
+    | 2, he => simp at he; subst he; simp at hnm
+    | k + 3, he => simp at he
+  | j + 2, hj => simp at hj
+example : DistinctNames [⟨1, .integer⟩, ⟨2, .float⟩, ⟨0, .integer⟩] :=
+  C15_distinct_of_nodup _ (by decide)
 example : homogeneous [⟨1, .float⟩, ⟨0, .float⟩] = true := by decide
 example : slicer (slicerPositions 2 none).1 (slicerPositions 2 none).2
     (Tab.dense ⟨[[11, 12, 13], [21, 22, 23]], 3⟩) = some ([[11, 12], [21, 22]], .inl [13, 23]) := by decide
